@@ -96,6 +96,8 @@ job_rt(const char *data, size_t dz, int k, int nocc)
 			printf("%02x", (unsigned char)text[j]);
 		}
 		printf("\n");
+		/* should what follows crash, the text is on record */
+		fflush(stdout);
 		nc = rt_parse(c, RT_MAXT, text, (size_t)tz);
 		printf("ctrl");
 		dump_task(b[i], nocc);
